@@ -53,6 +53,8 @@ def run(ctx, res):
         for e in r.numeric_sites:
             res.note("%s %s builds `%s` numerically outside the three kernels (it is not treated as confined)" % (
                 r.fi.where(e), r.fi.short, txt(e)[:50]))
+    from ..confinement import numeric_rejections
+    res.count("numeric rejections", numeric_rejections(ctx, res, "R12.3", handlers + [inter] + helpers, "intersection code"))
     # R12.2
     r45(ctx, res)
     for o in res.obligations:
